@@ -93,6 +93,22 @@ def setP (s : St) (o x v : Nat) : St × Bool :=
           assigned := upd s.assigned o SINCE_ANYTHING
           dassigned := upd s.dassigned x SINCE_ANYTHING }, true)
 
+/-- `obj.p[name] = value` for a parameter with a CUSTOM setter: `paramSetter` first marks definition and
+collection `SINCE_ANYTHING`, then calls the user function `g`, which sees the collection's current values and
+the new value and either refuses (raises: `none`, the flags stay marked) or leaves the collection with new
+values -- any of its own parameters, so transformations of the value and fan-out to sibling parameters are
+covered; sibling parameters assigned through THEIR setters get their definitions marked too (second
+component).  On a read-only collection `__setattr__` refuses before any of this. -/
+def setC (s : St) (g : (Nat → Nat) → Nat → Option ((Nat → Nat) × List Nat)) (o x v : Nat) : St × Bool :=
+  if s.readOnly o then (s, false)
+  else
+    match g (s.vals o) v with
+    | none =>
+      ({ s with assigned := upd s.assigned o SINCE_ANYTHING, dassigned := upd s.dassigned x SINCE_ANYTHING }, false)
+    | some (row, marked) =>
+      ({ s with vals := upd s.vals o row, assigned := upd s.assigned o SINCE_ANYTHING,
+                dassigned := fun d => if d = x ∨ d ∈ marked then SINCE_ANYTHING else s.dassigned d }, true)
+
 /-- an IN-PLACE change of the (mutable) value a parameter holds (`obj.p.x[0] += 1`, a nested array of a
 ragged value, `dict.update`): no setter runs, no flag changes; the value is simply a different one.
 (Not part of `Prog`: the keep-set logic of `restoreBackup` only sees assignments through setters.) -/
@@ -241,6 +257,7 @@ def makeReadOnly (s : St) (objs : List Nat) : St :=
 inductive Prog where
   | skip
   | set (o x v : Nat)
+  | setC (o x v : Nat) (g : (Nat → Nat) → Nat → Option ((Nat → Nat) × List Nat))
   | cacheSet (o k v : Nat)
   | gridSet (o : Nat) (g : GridVal)
   | seq (a b : Prog)
@@ -249,6 +266,7 @@ inductive Prog where
 def run : Prog → St → St
   | .skip, s => s
   | .set o x v, s => (setP s o x v).1
+  | .setC o x v g, s => (setC s g o x v).1
   | .cacheSet o k v, s => setCache s o k v
   | .gridSet o g, s => setGrid s o g
   | .seq a b, s => run b (run a s)
